@@ -312,7 +312,7 @@ class VSock:
                     head = (b"HTTP/1.1 101 Switching Protocols\r\nUpgrade: websocket\r\nConnection: Upgrade\r\n"
                             b"Sec-WebSocket-Accept: " + acc + b"\r\n\r\n")
                 else:
-                    head = b"HTTP/1.1 %d Nope\r\n\r\n" % self.status
+                    head = b"HTTP/1.1 %d Nope\r\n" % self.status + getattr(self, "reject_tail", b"\r\n")
                 self.inbox.append((self.w.now, "D", head))
                 for e in self.script:
                     self.inbox.append((self.w.now + e[0],) + tuple(e[1:]))
@@ -325,6 +325,14 @@ class VSock:
         if self.pending_buf:
             out, self.pending_buf = self.pending_buf[:n], self.pending_buf[n:]
             return out
+        if getattr(self, "at_eof", False):
+            # end of stream is sticky on a real socket: every further read returns b"" at once
+            self.eof_reads = getattr(self, "eof_reads", 0) + 1
+            if self.eof_reads > 200:
+                self.spun = True
+                from sim.sock import SpinDetected
+                raise SpinDetected(f"{self.eof_reads} reads at end of stream")
+            return b""
         if not self._avail():
             # blocking read with the socket timeout
             ok = self.w.block(lambda: bool(self._avail()) or self.closed,
@@ -351,6 +359,7 @@ class VSock:
             return chunk
         self.inbox.pop(i)
         if e[1] == "EOF":
+            self.at_eof = True
             return b""
         if e[1] == "R":
             raise ConnectionResetError(104, "Connection reset by peer")
